@@ -11,7 +11,8 @@ RULE_TEXT = ("complete inventory of may-panic sites (explicit panics/asserts, un
              "guarded by a recognised idiom, exempt, an exception with a reason valid for arbitrary file content, or a finding")
 EXPLANATION = ("D1 every may-panic site reachable from ctehexml/kyg/tbl parsing, Data::new, Model::try_from and collect_hulc_data is guarded, exempt, "
                "excepted with a reason, or listed as a known finding; D2 every loop is of a terminating kind; D3 no unexplained recursion cycle. "
-               "Sites in the indicator code reached through fix_ecdata_from_extra are decided by C14's inventory")
+               "Sites in the indicator code entered through C14's roots (fix_ecdata_from_extra -> energy_indicators on the converted model) are decided by C14's "
+               "inventory; indicator-side functions the converter calls directly are inventoried here")
 DECIDED = ["D1 no unguarded crash site beyond the triaged list (new sites are violations)", "D2 loops terminate", "D3 recursion"]
 UNDECIDED = ["that each exception's reason holds (reviewed, not proved)", "panics inside external crates (roxmltree, encoding, flate2, regex)"]
 ASSUMPTIONS = ["dev-profile MIR (overflow and bounds asserts explicit); release builds turn overflow into wrap-around that fails at the next index",
@@ -49,19 +50,27 @@ def run(ctx):
     prog = ctx.prog
     inv = Inventory(prog, ctx.cg)
     rts = roots(ctx)
-    seen, sites = reachable_sites(ctx, inv, rts, skip_fn=lambda f: not in_scope(f, prog))
+    # indicator-side code (bemodel::energy, climate, ..) is C14's when it is entered through C14's roots (a loaded model); anything the
+    # parse/convert code reaches *directly*, with arguments of its own making, is inventoried here whatever crate it lives in
+    from .c14 import roots as c14_roots
+    direct = set(ctx.cg.reachable(rts, cut=set(c14_roots(ctx))))
+
+    def mine(f):
+        return in_scope(f, prog) or f.id in direct or prog.root_of(f).id in direct
+    seen, sites = reachable_sites(ctx, inv, rts, skip_fn=lambda f: not mine(f))
     assign_keys(prog, sites, "c19.panic")
+    ctx.extra_cov["indicator_side_bodies_reached_directly"] = sum(1 for f in direct if not in_scope(prog.fns[f], prog))
     ctx.floor("c19.reach", "reachable bodies", len(seen), 500)
     ctx.floor("c19.panic", "classified may-panic sites", len(sites), 120)
     report_sites(ctx, "c19.panic", sites, C19_EXCEPTIONS, seen)
-    delegated = sum(1 for f in seen if not in_scope(prog.fns[f], prog))
+    delegated = sum(1 for f in seen if not mine(prog.fns[f]))
     ctx.extra_cov["bodies_delegated_to_C14"] = delegated
-    nloops = report_loops(ctx, "c19.loop", prog, seen, lambda f: in_scope(f, prog), C19_LOOP_EXCEPTIONS, CUSTOM_ITER_OK)
+    nloops = report_loops(ctx, "c19.loop", prog, seen, mine, C19_LOOP_EXCEPTIONS, CUSTOM_ITER_OK)
     ctx.floor("c19.loop", "loops classified", nloops, 30)
     for comp in recursion_cycles(ctx.cg, seen):
         names = sorted({prog.root_of(prog.fns[c]).path for c in comp})
         key = sanitize("c19.recursion|" + "|".join(names)[:200])
-        if not any(in_scope(prog.fns[c], prog) for c in comp):
+        if not any(mine(prog.fns[c]) for c in comp):
             continue
         if key in RECURSION_OK:
             ctx.exception("c19.recursion", key, RECURSION_OK[key], prog.fns[comp[0]].loc())
